@@ -8,6 +8,7 @@ import MantraDex.Driver.PoolStream
 import MantraDex.Driver.FarmStream
 import MantraDex.Driver.HistStream
 import MantraDex.Driver.MonStream
+import MantraDex.Driver.InstStream
 
 open MantraDex MantraDex.Driver
 
@@ -23,6 +24,9 @@ def dispatchPure (op : String) (args : List String) : Option String :=
   | some r => some r
   | none =>
   match farmmathOp op args with
+  | some r => some r
+  | none =>
+  match instOp op args with
   | some r => some r
   | none => monOp op args
 
